@@ -131,6 +131,10 @@ func WithToken() OptionFn {
 			return err
 		} else if data, err := ioutil.ReadFile(p); err != nil {
 			return err
+		} else if len(data) != len(uid) {
+			// an interrupted first start left an empty or partial token
+			// file behind: start over with a complete one
+			ioutil.WriteFile(p, []byte(uid), 0600)
 		} else {
 			uid = string(data)
 		}
